@@ -60,6 +60,11 @@ pub fn uci_talk() -> anyhow::Result<()> {
                         thread.join().unwrap();
                         search_thread = None;
                     }
+                    // A search that has just ended (or was stopped by its timer before
+                    // it began) may still need the game, let it finish first
+                    if let Some(thread) = search_thread.take() {
+                        thread.join().unwrap();
+                    }
                     let mut data = data.lock().unwrap();
                     command_ucinewgame(&mut data);
                 }
@@ -70,6 +75,9 @@ pub fn uci_talk() -> anyhow::Result<()> {
                     if search_is_running.load(Relaxed) {
                         println!("error: search is still running, enter 'stop' to stop it");
                     } else {
+                        if let Some(thread) = search_thread.take() {
+                            thread.join().unwrap();
+                        }
                         let mut data = data.lock().unwrap();
                         if let Err(err) = command_position(&mut data, &mut terms) {
                             println!("error: {}", err);
@@ -80,6 +88,9 @@ pub fn uci_talk() -> anyhow::Result<()> {
                     if search_is_running.load(Relaxed) {
                         println!("error: search is still running, enter 'stop' to stop it");
                     } else {
+                        if let Some(thread) = search_thread.take() {
+                            thread.join().unwrap();
+                        }
                         // Create new bool such that if the old sleep threaed is still runnning
                         // it won't affect this new search
                         search_is_running = Arc::new(AtomicBool::new(false));
@@ -93,6 +104,9 @@ pub fn uci_talk() -> anyhow::Result<()> {
                     if search_is_running.load(Relaxed) {
                         println!("error: search is still running, enter 'stop' to stop it");
                     } else {
+                        if let Some(thread) = search_thread.take() {
+                            thread.join().unwrap();
+                        }
                         let data = data.lock().unwrap();
                         if let Err(err) = command_show(&data) {
                             println!("error: {}", err);
